@@ -14,7 +14,7 @@
    Everything a dependency answers (notation-core-go, trust store, revocation
    validator, plugin manager, plugin, registry, custom verifier) is an input
    fact of the model (records [scenario], [verifier], [nreq], [breq]). *)
-From NV Require Import Base.
+From NV Require Import Base C12_Registry.
 Open Scope string_scope.
 Open Scope list_scope.
 
@@ -709,10 +709,28 @@ Definition spec_ok (i : input) (o : obs) : bool :=
   match o with ORet _ lvl outs err => level_ok i lvl outs err | _ => true end.
 
 (* ---------- cases ---------- *)
-Record case := mk_case { c_id : N; c_in : input; c_obs : obs }.
+(* [mk_case]: the nil-ability lattice; [mk_fcase] / [mk_lcase]: the registry client's
+   FetchSignatureBlob / ListSignatures (C12_Registry.v) *)
+Inductive case :=
+| mk_case (id : N) (i : input) (o : obs)
+| mk_fcase (id : N) (q : freq) (o : robs)
+| mk_lcase (id : N) (q : lreq) (o : robs).
+
+Definition c_id (c : case) : N :=
+  match c with mk_case id _ _ | mk_fcase id _ _ | mk_lcase id _ _ => id end.
+
+Definition case_agree (c : case) : bool :=
+  match c with
+  | mk_case _ i o => obs_eqb (model i) o
+  | mk_fcase _ q o => robs_eqb (fetch_sig q) o
+  | mk_lcase _ q o => robs_eqb (list_sigs q) o
+  end.
+
+Definition case_ok (c : case) : bool :=
+  match c with
+  | mk_case _ i o => negb (wf i) || spec_ok i o
+  | mk_fcase _ _ o | mk_lcase _ _ o => rspec_ok o
+  end.
 
 Definition run (cs : list case) : list (N * N * N) :=
-  run_cases c_id
-    (fun c => obs_eqb (model (c_in c)) (c_obs c))
-    (fun c => negb (wf (c_in c)) || spec_ok (c_in c) (c_obs c))
-    (fun _ => 0%N) cs.
+  run_cases c_id case_agree case_ok (fun _ => 0%N) cs.
